@@ -345,6 +345,7 @@ func (e *Engine) VerifyFunction(fn *ssa.Function, opts VerifyOpts) (res *FuncRes
 		}()
 		st := &State{heap: map[string]Term{}, ghost: map[string]Term{}, node: root}
 		st.next = e.sym.Const("next0", SInt)
+		st.next0 = st.next
 		st.Assume(Gt(st.next, TOne))
 		fr := e.newFrame(fn, nil, displayKey(fn))
 		ct := fr.contract
@@ -628,7 +629,7 @@ func (e *Engine) frameCheck(st *State, fr *Frame, vars map[string]specVal) {
 				}
 			}
 		}
-		q := fmt.Sprintf("(forall ((qr Int)) (=> (< qr %s) (= (select %s qr) (select %s qr))))", fr.oldNext.S, cur.S, allowed.S)
+		q := fmt.Sprintf("(forall ((qr Int)) (=> (and (< 0 qr) (< qr %s)) (= (select %s qr) (select %s qr))))", fr.oldNext.S, cur.S, allowed.S)
 		e.Assert(st, fr, "frame", name, Term{q, SBool})
 	}
 }
